@@ -51,6 +51,15 @@ class Module:
             for child in ast.iter_child_nodes(node):
                 child._parent = node
         self.tree._parent = None
+        # program order of the (normalised) tree: inlined nodes keep the line numbers of the helper they came from, so
+        # line numbers are for reports only - rules that need "textually before" use `_order`
+        counter = 0
+        stack = [self.tree]
+        while stack:
+            n = stack.pop()
+            n._order = counter
+            counter += 1
+            stack.extend(reversed(list(ast.iter_child_nodes(n))))
         self._funcs = None
 
     @property
@@ -281,6 +290,11 @@ def qualname_of(node):
             names.append(p.name)
         p = parent(p)
     return ".".join(reversed(names)) or "<module>"
+
+
+def order(node):
+    """position of a node in program (pre-)order of the normalised tree"""
+    return getattr(node, "_order", getattr(node, "lineno", 0))
 
 
 def norm(node):
